@@ -362,6 +362,78 @@ class Path(object):
         self.val = val    # env (normal/break/continue) | returned term
 
 
+def _int_rel(t, pol=True):
+    """t = a comparison of a non-constant term x with an integer constant c  ->  (x, op, c) with op one of
+    '==', '!=', '<', '<=', '>', '>=' (polarity applied), else None"""
+    if not (isinstance(t, App) and t.f in ("Eq", "NotEq", "Lt", "LtE", "Gt", "GtE") and len(t.args) == 2 and not t.kw):
+        return None
+    a, b = t.args
+    op = {"Eq": "==", "NotEq": "!=", "Lt": "<", "LtE": "<=", "Gt": ">", "GtE": ">="}[t.f]
+    isint = lambda k: isinstance(k, Const) and isinstance(k.v, int) and not isinstance(k.v, bool)
+    if isint(b) and not isinstance(a, Const):
+        x, c = a, b.v
+    elif isint(a) and not isinstance(b, Const):
+        x, c = b, a.v
+        op = {"<": ">", "<=": ">=", ">": "<", ">=": "<=", "==": "==", "!=": "!="}[op]
+    else:
+        return None
+    if ty_of(x) != "int":
+        return None                    # the +-1 steps below are right for integers only
+    if not pol:
+        op = {"==": "!=", "!=": "==", "<": ">=", "<=": ">", ">": "<=", ">=": "<"}[op]
+    return x, op, c
+
+
+def _decide_by_interval(v, pc):
+    """Decide the comparison v of a term with an integer constant from the comparisons of the same term with
+    integer constants already on the path (interval plus excluded points); None when they do not decide it."""
+    r = _int_rel(v)
+    if r is None:
+        return None
+    x, op, c = r
+    lo = hi = None
+    neq = set()
+    for (t, pol, _) in pc:
+        q = _int_rel(t, pol)
+        if q is None or q[0] != x:
+            continue
+        _, o2, c2 = q
+        if o2 == "==":
+            lo = c2 if lo is None else max(lo, c2)
+            hi = c2 if hi is None else min(hi, c2)
+        elif o2 == "!=":
+            neq.add(c2)
+        elif o2 in ("<", "<="):
+            b = c2 - 1 if o2 == "<" else c2
+            hi = b if hi is None else min(hi, b)
+        else:
+            b = c2 + 1 if o2 == ">" else c2
+            lo = b if lo is None else max(lo, b)
+    if lo is None and hi is None and not neq:
+        return None
+    while lo is not None and lo in neq:
+        lo += 1
+    while hi is not None and hi in neq:
+        hi -= 1
+    below = hi is not None and hi < c          # every admissible value is < c
+    above = lo is not None and lo > c          # every admissible value is > c
+    at = lo is not None and hi is not None and lo == hi == c
+    out = c in neq or below or above
+    if op == "==":
+        return True if at else False if out else None
+    if op == "!=":
+        return False if at else True if out else None
+    if op == "<":
+        return True if below else False if (lo is not None and lo >= c) else None
+    if op == "<=":
+        return True if (hi is not None and hi <= c) else False if above else None
+    if op == ">":
+        return True if above else False if (hi is not None and hi <= c) else None
+    if op == ">=":
+        return True if (lo is not None and lo >= c) else False if below else None
+    return None
+
+
 class Ev(object):
     def __init__(self, world, policy=None, fuel=60000, maxpaths=1500, loop_mode="error"):
         self.world = world
@@ -462,6 +534,9 @@ class Ev(object):
                     c2, x2 = (t.args[0], t.args[1]) if isinstance(t.args[0], Const) else (t.args[1], t.args[0])
                     if isinstance(c2, Const) and x2 == x and c2 != c and type(c2.v) is type(c.v):
                         return [(st, v.f == "NotEq")]
+        r = _decide_by_interval(v, st.pc)
+        if r is not None:
+            return [(st, r)]
         if ty_of(v) == "int" and isinstance(v, (App, Sym)):
             # truth value of an integer: it is not zero
             return self.branch(mk_app("NotEq", (v, Const(0))), st, site)
@@ -533,6 +608,7 @@ class Ev(object):
             env = {"locals": dict(m.globals), "mod": m, "closure": None, "fname": "<module>", "toplevel": True,
                    "toplevel_copy": True}
             mark = len(self.raised)
+            before = set(st.heap)       # (snapshot: one of the paths continues in this very state object)
             paths = self.stmt(stn, env, st)
             dropped = self.raised[mark:]
             del self.raised[mark:]
@@ -543,10 +619,16 @@ class Ev(object):
                 # paths that differ only in a condition the analysis could not fold, but leave the
                 # module namespace and the heap identical, are one import as far as later code can tell
                 table = {}
-                sigs = {self._import_sig(p, set(st.heap), table) for p in normal}
+                sigs = {self._import_sig(p, before, table) for p in normal}
                 if len(sigs) == 1:
                     w.import_facts.append(("import-time fork without observable difference collapsed", len(normal), self.site(stn, env)))
                     normal = normal[:1]
+            if not normal and dropped and all(p.kind != "normal" for p in paths):
+                from .loader import ImportRaises
+                (_, e0, site0) = dropped[0]
+                raise ImportRaises("%s:%d: this module-level statement raises on every path: %s"
+                                   % (m.relpath, stn.lineno, "; ".join("%s at %s:%s (%s)" % (exc_name(e), s_[0], s_[1], s_[2]) for (_, e, s_) in dropped[:4])),
+                                   exc_name(e0), site0)
             if len(normal) != 1:
                 raise AnalysisError("%s:%d: module top-level statement has %d normal paths (import must be deterministic)%s"
                                     % (m.relpath, stn.lineno, len(normal),
@@ -1179,7 +1261,19 @@ class Ev(object):
         return self._comp_map("dictcomp", n, env, st)
 
     def e_JoinedStr(self, n, env, st):
-        return self._opaque_expr("fstring", n, env, st)
+        # an f-string whose pieces are all known strings/ints (no conversion, no format spec) is a constant
+        parts = []
+        for v in n.values:
+            if isinstance(v, ast.Constant) and isinstance(v.value, str):
+                parts.append(v.value)
+                continue
+            if isinstance(v, ast.FormattedValue) and v.conversion == -1 and v.format_spec is None and isinstance(v.value, ast.Name):
+                x = self.lookup_name(v.value.id, env, st)
+                if isinstance(x, Const) and isinstance(x.v, (str, int)) and not isinstance(x.v, bool):
+                    parts.append(str(x.v))
+                    continue
+            return self._opaque_expr("fstring", n, env, st)
+        return [(st, Const("".join(parts)))]
 
     def e_NamedExpr(self, n, env, st):
         out = []
@@ -1453,6 +1547,10 @@ class Ev(object):
                 outs = nxt
             return [Outcome("return", self.new_iter(TupleV(acc, "list"), s1), s1) for s1, acc in outs]
         if name == "isinstance" and len(args) == 2:
+            if isinstance(args[1], Obj) or (not isinstance(args[1], (TupleV, ClassV, ExtV)) and ty_of(args[1]) in ("int", "bytes", "str", "bool", "list", "bytearray")):
+                # isinstance(T, x) with the operands exchanged: arg 2 is a value, not a class
+                self.do_raise(st, "TypeError", site, "isinstance() arg 2 must be a type, a tuple of types, or a union")
+                return []
             r = self._isinstance(args[0], args[1])
             if r is not None:
                 return [Outcome("return", Const(r), st)]
